@@ -479,3 +479,160 @@ Theorem C14_error_empty_stdout_syntax : forall F flog fadd fgt fields lower ph l
   stdout_of_infer (infer_scored F flog fadd fgt fields lower ph letter digit training target) = [].
 Proof. intros F flog fadd fgt fields lower ph letter digit training target H. rewrite H. reflexivity. Qed.
 Print Assumptions C14_error_empty_stdout_syntax.
+
+(* ---------------------------------------------------------------- (7) flag handling *)
+(* "... and any flag values": the value parsers behind knut's flags (cmd/flags, pflag's int/int32/bool on
+   strconv, time.Parse for dates), pflag's reading of the argument list and cobra's validation before Run
+   (Model/Flags.v), and the commands behind their command lines (Model/CliFlags.v).  regexp.Compile is
+   classified on a sublanguage only ([rx_class]; [RxUnknown] outside it), so the statements about regular
+   expressions carry a third alternative; everything else is total. *)
+From Knut Require Import Model.Flags Model.CliFlags Proofs.FlagsProofs.
+
+(* a rejected command line (a rejected flag value, an unknown flag, a missing argument, the wrong number of
+   arguments, a missing required flag, two exclusive interval flags) ends the command before its Run
+   function: the result is the usage error whatever the file system holds - the journal is not loaded,
+   nothing is written, there is no panic and no success *)
+Theorem C14_flag_error_is_clean : forall c today argv e,
+  parse_cmdline c argv = CLRejected e ->
+  forall fs, run_argv c today argv fs = ORejected e /\
+             run_argv c today argv fs <> ORun PredPANIC /\ run_argv c today argv fs <> ORun PredOK /\
+             (forall fs', run_argv c today argv fs' = run_argv c today argv fs).
+Proof.
+  intros c today argv e H fs. split; [exact (flag_error_is_clean c today argv e H fs)|].
+  exact (flag_error_no_panic c today argv e fs H).
+Qed.
+Print Assumptions C14_flag_error_is_clean.
+
+(* a value its flag's parser rejects, directly after the flag: the parse ends there with that error,
+   whatever follows on the command line *)
+Theorem C14_rejected_value_rejects : forall defs d v e rest,
+  find_long defs (f_name d) = Some d -> f_kind d <> KBool -> ~ In 61 (f_name d) ->
+  match f_name d with [] => False | c :: _ => c <> 45 /\ c <> 61 end ->
+  parse_value (f_kind d) v = VErr e ->
+  parse_args defs ((45 :: 45 :: f_name d) :: v :: rest) = PErr (PInvalid (f_name d) e).
+Proof. exact rejected_long_value. Qed.
+Print Assumptions C14_rejected_value_rejects.
+
+(* ... and anywhere on the command line: after any accepted arguments (the terminator "--" not among
+   them) and whatever follows, the command ends with that flag's usage error, in every file system *)
+Theorem C14_rejected_value_ends_command : forall c today pre d v e rest s p fs,
+  parse_args (cmd_flags c) pre = PArgs s p -> ~ In dashdash pre ->
+  find_long (cmd_flags c) (f_name d) = Some d -> f_kind d <> KBool -> ~ In 61 (f_name d) ->
+  match f_name d with [] => False | x :: _ => x <> 45 /\ x <> 61 end ->
+  parse_value (f_kind d) v = VErr e ->
+  run_argv c today (pre ++ (45 :: 45 :: f_name d) :: v :: rest) fs = ORejected (PInvalid (f_name d) e).
+Proof. exact rejected_value_ends_command. Qed.
+Print Assumptions C14_rejected_value_ends_command.
+
+(* conversely, what reaches the command are accepted values only, each of a flag the command has, each in
+   the range of its flag (64/32-bit two's complement, years 0..9999, non-negative mapping numbers) *)
+Theorem C14_accepted_values_in_range : forall c argv sets pos,
+  parse_cmdline c argv = CLRun sets pos ->
+  Forall (fun nv => exists d, In d (cmd_flags c) /\ f_name d = fst nv /\ value_in_range (f_kind d) (snd nv) = true) sets.
+Proof. exact cmdline_values_in_range. Qed.
+Print Assumptions C14_accepted_values_in_range.
+
+(* every string is either accepted with a value in range or rejected: for every flag kind whose parser is
+   modelled on all strings (bool, int, int32, date, the string flags) ... *)
+Theorem C14_flags_total : forall k s, total_kind k = true ->
+  (exists v, parse_value k s = VOk v /\ value_in_range k v = true) \/ (exists e, parse_value k s = VErr e).
+Proof. exact flags_total_strict. Qed.
+Print Assumptions C14_flags_total.
+
+(* ... and for the two kinds that compile a regular expression (--account --commodity --remap -s, -m) up
+   to the classification of the expression.  Full statement: the same as C14_flags_total for every k; it
+   needs a model of regexp/syntax on all strings, [rx_class] answers RxUnknown outside its sublanguage. *)
+Theorem C14_flags_total_rx_partial : forall k s,
+  (exists v, parse_value k s = VOk v /\ value_in_range k v = true) \/
+  (exists e, parse_value k s = VErr e) \/
+  (parse_value k s = VUnknown /\ total_kind k = false).
+Proof. exact flags_total. Qed.
+Print Assumptions C14_flags_total_rx_partial.
+
+(* strconv.ParseInt(s, 0, bits) as pflag calls it: an accepted value fits the flag's integer type *)
+Theorem C14_int_flag_range : forall s bits n, 1 <= bits -> parse_int s 0 bits = NOk n ->
+  - 2 ^ (bits - 1) <= n < 2 ^ (bits - 1).
+Proof. exact parse_int_range. Qed.
+Print Assumptions C14_int_flag_range.
+
+(* -m: accepted iff the text is <level>[:<suffix>][,<regex>] with integers (strconv.Atoi), level >= 0 and
+   suffix >= 0 (fix 78c5401), and the expression, if there is one, compiles *)
+Theorem C14_mapping_flag_iff : forall v l sf r,
+  parse_mapping v = MapOk l sf r <->
+  mapping_text v l sf r /\ 0 <= l /\ 0 <= sf /\ (forall x, r = Some x -> rx_class x = RxOk).
+Proof. exact mapping_flag_iff. Qed.
+Print Assumptions C14_mapping_flag_iff.
+
+(* the model has no opinion on a -m value only because of its expression *)
+Theorem C14_mapping_flag_unknown : forall v, parse_mapping v = MapUnknown ->
+  exists nums x, v = nums ++ 44 :: x /\ rx_class x = RxUnknown.
+Proof. exact parse_mapping_unknown. Qed.
+Print Assumptions C14_mapping_flag_unknown.
+
+(* the guard [mapping_nonneg] of the no-panic theorems (sections 2 and 5) holds for every command line
+   cobra lets through: after 78c5401 account.Shorten cannot be reached with a negative number *)
+Theorem C14_accepted_mapping_guard : forall c argv sets pos today cfg,
+  parse_cmdline c argv = CLRun sets pos -> balance_cfg_of today sets = Some cfg ->
+  mapping_nonneg (bc_mapping cfg) = true.
+Proof. exact accepted_balance_guard. Qed.
+Print Assumptions C14_accepted_mapping_guard.
+
+(* "-1,Assets" is a well-formed text with a negative level: rejected, with that reason *)
+Example C14_mapping_negative_rejected :
+  parse_mapping [45;49;44;65;115;115;101;116;115] = MapErr MNegative /\
+  parse_mapping [49;58;45;50;44] = MapErr MNegative /\
+  parse_mapping [49;58;50;44;94;65] = MapOk 1 2 (Some [94;65]) /\
+  parse_mapping [49;44;40] = MapErr MRegex /\
+  parse_mapping [120;44;65] = MapErr MInt /\
+  parse_mapping [49;58;50;58;51;44;65] = MapErr MShape.
+Proof. vm_compute. repeat split. Qed.
+
+(* the hypothesis of C14_flag_error_is_clean is satisfiable: knut balance -m -1,Assets j *)
+Example C14_flag_error_example :
+  parse_cmdline CmdBalance [[45;109]; [45;49;44;65;115;115;101;116;115]; [106]] = CLRejected (PInvalid n_map EMapNegative) /\
+  parse_cmdline CmdBalance [[45;45;108;97;115;116]; [120]; [106]] = CLRejected (PInvalid n_last EIntSyntax) /\
+  parse_cmdline CmdBalance [[45;45;100;105;103;105;116;115]; [50;49;52;55;52;56;51;54;52;56]; [106]] = CLRejected (PInvalid n_digits EIntRange) /\
+  parse_cmdline CmdBalance [[45;45;102;114;111;109]; [50;48;50;48;45;48;50;45;51;48]; [106]] = CLRejected (PInvalid n_from EDate) /\
+  parse_cmdline CmdBalance [[45;45;100;97;121;115]; [45;45;119;101;101;107;115]; [106]] = CLRejected PExclusive /\
+  parse_cmdline CmdBalance [[106]; [107]] = CLRejected (PArgCount 2) /\
+  parse_cmdline CmdInfer [[106]] = CLRejected (PRequired n_training) /\
+  parse_cmdline CmdPrint [[45;45;120]; [106]] = CLRejected (PUnknownFlag [120]).
+Proof. vm_compute. repeat split. Qed.
+
+(* ... and so is that of C14_accepted_values_in_range: knut balance --last 3 --days -m 1,Assets -ak j *)
+Example C14_flags_accepted_example :
+  parse_cmdline CmdBalance [[45;45;108;97;115;116]; [51]; [45;45;100;97;121;115]; [45;109]; [49;44;65]; [45;97;107]; [106]] =
+  CLRun [(n_last, VInt 3); (n_days, VBool true); (n_map, VRule 1 0 (Some [65])); (n_sort, VBool true); (n_thousands, VBool true)] [[106]].
+Proof. vm_compute. reflexivity. Qed.
+
+(* the hypotheses of C14_rejected_value_rejects hold for --last of balance *)
+Example C14_rejected_value_example :
+  let d := mkF n_last 0 KInt64 in
+  find_long (cmd_flags CmdBalance) (f_name d) = Some d /\ f_kind d <> KBool /\ ~ In 61 (f_name d) /\
+  parse_value (f_kind d) [57;57;57;57;57;57;57;57;57;57;57;57;57;57;57;57;57;57;57;57] = VErr EIntRange.
+Proof.
+  cbv zeta. split; [vm_compute; reflexivity|]. split; [discriminate|]. split; [|vm_compute; reflexivity].
+  cbn. intros [H|[H|[H|[H|[]]]]]; discriminate.
+Qed.
+
+(* base prefixes and underscores as strconv.ParseInt(s, 0, 64) reads them *)
+Example C14_int_syntax_example :
+  parse_int [48;120;49;70] 0 64 = NOk 31 /\ parse_int [49;95;48;48;48] 0 64 = NOk 1000 /\
+  parse_int [48;49;55] 0 64 = NOk 15 /\ parse_int [49;95;95;48] 0 64 = NErr NSyntax /\
+  parse_int [45;57;50;50;51;51;55;50;48;51;54;56;53;52;55;55;53;56;48;56] 0 64 = NOk (-9223372036854775808) /\
+  parse_int [57;50;50;51;51;55;50;48;51;54;56;53;52;55;55;53;56;48;56] 0 64 = NErr NRange /\
+  parse_int [50;49;52;55;52;56;51;54;52;56] 0 32 = NErr NRange.
+Proof. vm_compute. repeat split. Qed.
+
+(* a whole command line in a file tree: `knut check j` and `knut print --x j` where j is an empty journal,
+   `knut check missing` and `knut infer -t nothere j` *)
+Example C14_run_argv_example :
+  let fs : fsys := [([[106]], LoaderM.FOk [])] in
+  run_argv CmdCheck 0 [[106]] fs = ORun PredOK /\
+  run_argv CmdPrint 0 [[45;45;120]; [106]] fs = ORejected (PUnknownFlag [120]) /\
+  run_argv CmdCheck 0 [[109]] fs = ORun PredERR /\
+  run_argv CmdInfer 0 [[45;116]; [110]; [106]] fs = ORun PredERR /\
+  run_argv CmdInfer 0 [[45;116]; [106]; [106]] fs = ORun PredOK /\
+  run_argv CmdTranscode 0 [[106]] fs = ORun PredERR /\
+  run_argv CmdBalance 0 [[45;45;104;101;108;112]; [106]] fs = OHelp.
+Proof. vm_compute. repeat split. Qed.
